@@ -86,7 +86,7 @@ func TestVerifC14Banner(t *testing.T) {
 			br.Fields = append(br.Fields, [2]string{"Cache-Control", "max-age=3600"})
 		}
 		if rng.intn(4) == 0 {
-			br.Fields = append(br.Fields, [2]string{"Content-Encoding", "identity"})
+			br.Fields = append(br.Fields, [2]string{"Content-Encoding", []string{"identity", "gzip", "br"}[rng.intn(3)]})
 		}
 		br.Fields = append(br.Fields, [2]string{"Set-Cookie", "k=v"}, [2]string{"X-Other", "o"})
 		cur = br
